@@ -50,6 +50,19 @@ CHECKS = {
              'listed child reports its lister as parent, no element is listed by two parents or twice, iteration / len / in / [] '
              '/ named lookup agree, one version and one level per tree.',
         note='trusted: the invariant evaluator (public observers only); rejected calls are transitions too'),
+    'C11': dict(
+        engine=E2, design_ref='DESIGN.md section 7 C11',
+        technique='explicit-state breadth-first search over read/write histories (chains of depth 1-4 by name, long name and '
+                  'positional path x observers) on real objects, plus an exhaustive read-then-write sweep over every leaf path of '
+                  'the segments of a version; oracle: before/after equality for reads, reference encoding + "new nodes form one path" for writes',
+        text='9 roots (empty and parsed Message, STRICT Message, empty / parsed / STRICT Segment, Z-segment, empty and parsed '
+             'Field); ~90 operations per root (11 chains x 6 observers: len, iteration, repr, empty slice, bool, repeated; root '
+             'to_er7 / validate / children; writes by assignment, .value and datatype object at the end of each chain); all '
+             'histories to depth 3 (thorough 4). A read must leave encoding, recursive listing and validation report identical; '
+             'a write must produce the reference encoding of old content + value at that position and the newly listed elements '
+             'must lie on one path. Sweep: every leaf path of every 4th (thorough: every) segment of v2.5 (+2.8.2, 2.3) is read '
+             'on an empty segment, then written.',
+        note='trusted: reference content model and encoder; leaf values without separators'),
     'C12': dict(
         engine=E2, design_ref='DESIGN.md section 7 C12',
         technique='explicit-state breadth-first search: every state reachable by set/add/delete/copy histories x every rejecting '
